@@ -215,8 +215,20 @@ package cisco
 // diffCmds: lines of an IOS extended ACL that is bound to an interface must be
 // changed by diffIOSACLs (inserts first, deletes bottom-up, moves joined), never
 // by the wholesale "remove all from device, then add all from Netspoc" path.
+//vc:ghost var anyEqualRange bool
 //vc:func (*State).diffCmds
 //vc:  assert[C14] at "s.delCmds(al)" @aclLinesNeverRemovedWholesale al[0].subCmdOf.typ.prefix != "ip access-list extended"
+// Independent of the known finding above: for the lines of an IOS extended ACL
+// the wholesale path may at most be taken when the diff has no equal range
+// (anyEqualRange: ghost, computed from the answers of r.IsEqual()); the
+// override "standard ACL can't be changed incrementally" must not fire for
+// them (their lines never start with "access-list $NAME standard ").
+//vc:  assume at "if strings.HasPrefix(c.parsed,"#2 len(al) > 0 && al[0].subCmdOf != nil && al[0].subCmdOf.typ.prefix == "ip access-list extended" ==> !strings.HasPrefix(c.parsed, "access-list $NAME standard ")
+//vc:  assign after "diff := diffCmdLists(ab)" anyEqualRange = false
+//vc:  assign after "if r.IsEqual() {" anyEqualRange = anyEqualRange || callresult
+//vc:  invariant[C14] 1 "for _, r := range diff" @hasEqFollowsDiff hasEq == anyEqualRange
+//vc:  invariant[C14] 2 "for _, c := range al" @onlyStandardACLForcedToReplace hasEq == anyEqualRange || !(len(al) > 0 && al[0].subCmdOf != nil && al[0].subCmdOf.typ.prefix == "ip access-list extended")
+//vc:  assert[C14] at "s.delCmds(al)" @wholesaleOnlyWithoutCommonLine al[0].subCmdOf.typ.prefix == "ip access-list extended" ==> !anyEqualRange
 
 // ---- C18: a raw object is merged only once ----
 // mergeRefs: an object of a raw file that was already merged through another
